@@ -16,6 +16,8 @@ What is proved here (tokenizer level, `Model/Lexer.lean` = `lexer.rs`), for ALL 
 and at the parser level (`Model/Parser.lean` = `parser.rs`: `parse_arxml`, `parse_element`, `parse_attribute_text`,
 `parse_character_data`, …; the driver answers `load` requests into an empty model with it, compared with the library
 including the kind and line of every error and warning):
+* `C02_parser_lines_in_range`: every error and every warning of a parser run (tokenizer errors included) names a line
+  between 1 and 1 + the number of newline bytes of the buffer;
 * `C02_parser_total`: for every buffer, in both modes, the run of the parser model ends with a document or with a
   genuine tokenizer / parser error — the step budget of its loops is never exhausted (each token strictly decreases
   the tokenizer measure; everything between two tokens leaves the tokenizer alone).
@@ -30,6 +32,7 @@ values / comments is outside the parser model (the model answers `unsupported`).
 -/
 import AutosarVerif.Lemmas.Lexer
 import AutosarVerif.Lemmas.ParserTotal
+import AutosarVerif.Lemmas.ParserLines
 
 namespace AV.C02
 open AV.Lex
@@ -46,6 +49,11 @@ theorem C02_lines_in_range (buf : Bytes) :
 theorem C02_parser_total (S : Spec) (V : W.Env) (strict : Bool) (buf : Bytes) (firstId nmAutosar : Nat) :
     ∀ e, (PM.runParser S V strict buf firstId nmAutosar).1 = .error e → e.kind ≠ PM.kFuel :=
   PM.runParser_total S V strict buf firstId nmAutosar
+
+theorem C02_parser_lines_in_range (S : Spec) (V : W.Env) (strict : Bool) (buf : Bytes) (firstId nmAutosar : Nat) :
+    (∀ e, (PM.runParser S V strict buf firstId nmAutosar).1 = .error e → 1 ≤ e.line ∧ e.line ≤ 1 + countNl buf) ∧
+    (∀ w ∈ (PM.runParser S V strict buf firstId nmAutosar).2.warnings, 1 ≤ w.line ∧ w.line ≤ 1 + countNl buf) :=
+  PM.runParser_lines S V strict buf firstId nmAutosar
 
 /-! non-vacuity: the model tokenises, reports errors with lines, and skips what the code skips -/
 -- "<a>\n<>" : begin element on line 1, then `InvalidElement` on line 2
